@@ -4,7 +4,7 @@ from __future__ import annotations
 import itertools
 
 from vf.core import Model, as_handle, rng_for
-from vf.diskcheck import compare_reads, crossing_count, gen_requests
+from vf.diskcheck import compare_reads, continuation_reads, crossing_count, gen_requests
 from vf.monitors import call
 from vf.writers import vdi as w
 
@@ -17,7 +17,7 @@ RULE = (
     "VDI images written by an independent writer from a content model: block sizes 512 B..4 MiB, block maps "
     "with every mix of allocated/unallocated(-1)/zero(-2), all permutations of physical positions for <=4 blocks "
     "and random/reversed/run-wise placements beyond, disk sizes that are not a block multiple, arbitrary "
-    "BlocksOffset/DataOffset; children over a parent image in which zero-marked blocks cover parent data; requests are exhaustive sector pairs on tiny disks and boundary-set pairs + random "
+    "BlocksOffset/DataOffset; several images sharing one image UUID (the same disk at different times) opened in one process; children over a parent image in which zero-marked blocks cover parent data; requests are exhaustive sector pairs on tiny disks and boundary-set pairs + random "
     "byte-granular ones otherwise. A case is non-trivial when it has >=2 blocks and a block map that is not the "
     "identity, or a mix of block states; distinct = distinct (block size, nblocks, states, map) signatures."
 )
@@ -25,7 +25,7 @@ ASSUMPTIONS = [
     "the harness's VDI writer and content model are a faithful reading of the VDI v1.1 layout",
     "held means: held on the executions listed, not verified for all inputs",
 ]
-MINIMA = {"quick": {"reads_compared": 2000, "multi_block_requests": 200, "zero_blocks_over_parent_data": 10}, "thorough": {"reads_compared": 300000}}
+MINIMA = {"quick": {"reads_compared": 2000, "multi_block_requests": 200, "zero_blocks_over_parent_data": 10, "same_uuid_twin_images": 30}, "thorough": {"reads_compared": 300000}}
 MECH = "vdi.read"
 
 
@@ -49,15 +49,46 @@ def plan(tier: str, seed: int) -> list[dict]:
                 "weight": 1 + (bs * n >> 20),
             }
         )
+    for i in range(16 if tier == "quick" else 400):
+        cases.append({"k": "twin", "bs": rng.choice([512, 4096, 65536]), "n": rng.randrange(2, 16), "i": i, "placement": "shuffle"})
     for i in range(24 if tier == "quick" else 3000):
         bs = rng.choice([512, 1024, 4096, 65536])
         cases.append({"k": "parent", "bs": bs, "n": rng.randrange(2, 24), "i": i, "placement": "shuffle"})
     return cases
 
 
+def _twin(case, ctx, rng):
+    """Two images that carry the same image UUID (the same disk at two points in time: blocks rewritten, discarded,
+    allocated in another order) opened one after the other in this process; each must read as its own content."""
+    from dissect.hypervisor.disk.vdi import VDI
+
+    res = {"cnt": {}, "viol": [], "sets": {}}
+    bs, n = case["bs"], case["n"]
+    uid = bytes(rng.randrange(256) for _ in range(16))
+    opened = []
+    for t in range(3):
+        sf, layer, meta = w.build(rng, block_size=bs, nblocks=n, placement="shuffle", tag=rng.getrandbits(48), uuid=uid,
+                                  states=[rng.choice("AAUZ") for _ in range(n)])
+        o = call(VDI, as_handle(sf.to_bytes()))
+        if not o.ok:
+            res["viol"].append({"what": f"open failed on conformant image: {o.brief()}", "mech": MECH, "detail": {"tb": o.tb}})
+            return res
+        opened.append((o.value, Model(meta["size"], [layer])))
+        for v_, m_ in opened:  # the new one and every earlier one again
+            reqs, _ = gen_requests(rng, m_.size, [bs], n_random=10, pair_cap=30)
+            compare_reads(v_, m_, reqs, res, MECH)
+    res["cnt"]["same_uuid_twin_images"] = len(opened)
+    res["nontrivial"] = True
+    res["sig"] = ("twin", case["i"], bs, n)
+    res["sample"] = {"twin_images_sharing_one_uuid": len(opened), "block_size": bs, "blocks": n}
+    return res
+
+
 def run(case: dict, ctx) -> dict:
     rng = rng_for(ctx.seed, ID, case["k"], case.get("i", 0), case["bs"], case["n"], case.get("perm"))
     bs, n = case["bs"], case["n"]
+    if case["k"] == "twin":
+        return _twin(case, ctx, rng)
     if case["k"] == "perm":
         sf, layer, meta = w.build(rng, block_size=bs, nblocks=n, states=["A"] * n, placement="seq")
         # re-map according to the permutation
@@ -110,6 +141,7 @@ def run(case: dict, ctx) -> dict:
     if v.size != meta["size"]:
         res["viol"].append({"what": "size mismatch", "mech": MECH, "detail": {"got": v.size, "exp": meta["size"]}})
     reqs, exhaustive = gen_requests(rng, meta["size"], [bs], n_random=40 if ctx.tier == "quick" else 120)
+    continuation_reads(v, model, reqs, rng, res, MECH)
     compare_reads(v, model, reqs, res, MECH)
     res["cnt"]["writer_triangulations"] = tri
     res["cnt"]["multi_block_requests"] = crossing_count(reqs, bs)
